@@ -4,6 +4,7 @@ import numpy as np
 from .. import gen
 from ..attach import Patcher
 
+FDIV_WIDE = ["TVGEMINI", "KLGEMINI", "HellingerGEMINI", "ChiSquareGEMINI"]
 CONCRETE = ["KLGEMINI", "TVGEMINI", "HellingerGEMINI", "ChiSquareGEMINI", "MMDGEMINI", "WassersteinGEMINI"]
 
 
@@ -88,6 +89,16 @@ def direct_case(seed, prop, idx, nmax=16, kmax=6, scales=(0.1, 0.5, 1.0, 2.0, 4.
                 big_wass=32, huge=True):
     """Build (desc, gem, P, logits, A, X) for direct-call case number idx."""
     rng = gen.rng_for(seed, prop, "direct", idx)
+    if big and huge and idx % 200 == 7:
+        # a very wide f-divergence case: n * K^2 beyond 2^20 elements (n 1100..1500, K 32..48), the size at which an
+        # implementation starts thinking about memory (blocks, chunks, reductions in pieces); one-vs-one three times out of four
+        n, K = int(rng.integers(1100, 1501)), int(rng.integers(32, 49))
+        desc = {"cls": FDIV_WIDE[(idx // 200) % 4], "ovo": bool(rng.random() < 0.75)}
+        gem = gen.gemini_from_desc(desc)
+        scale = float(rng.choice([0.5, 1.0, 2.0]))
+        P, L = gen.predictions(rng, n, K, scale)
+        info = {"gemini": desc, "n": n, "K": K, "d": 1, "data": "none", "logit_scale": scale, "affinity_log10_scale": 0.0, "wide": True}
+        return info, gem, P, L, None, np.zeros((n, 1))
     nonneg = bool(rng.random() < 0.25)
     desc = gen.random_gemini_desc(rng, nonneg=nonneg)
     n = int(rng.integers(nmin, nmax + 1))
